@@ -1,6 +1,10 @@
 package props
 
-import "verif/internal/an"
+import (
+	"strings"
+
+	"verif/internal/an"
+)
 
 func init() {
 	register(&Property{
@@ -115,5 +119,20 @@ func runC03(c *Ctx) {
 		r.ArgValues("C03-P4", u, an.Call("raft.IExtRaftStorage.SetHardState"), 0, []string{"st"}, 1)
 		r.ArgValues("C03-P4", u, an.Call("raft.IExtRaftStorage.Append"), 0, []string{"ents"}, 1)
 		r.Order("C03-P4", u, ret, []an.M{an.Call("raft.IExtRaftStorage.ApplySnapshot")}, an.OrderOpts{Assume: "p0 != nil", Min: 1})
+		// entries read from the WAL are dropped only for the forced stand-alone restart
+		cut := an.LocalStore("ents").Where("truncation", func(u *an.Unit, s *an.Site) bool { return s.RHS != nil && strings.HasPrefix(u.C.Term(s.RHS), "ents[:") })
+		r.Guard("C03-P4", u, cut, "p1", an.GuardOpts{Min: 1})
+	}
+	// P5: the durable log replaces a conflicting suffix
+	r.Clause("C03-P5", "RocksStorage.addEntries deletes the stale tail after a shorter overwrite")
+	if u := c.unit("C03-P5", "raft.(*RocksStorage).addEntries"); u != nil {
+		setc := an.Call("raft.(*RocksStorage).setCachedLastIndex")
+		del := an.Call("raft.(*RocksStorage).deleteFrom")
+		r.Order("C03-P5", u, setc, []an.M{an.Call("raft.(*RocksStorage).LastIndex").Ok(an.NilErr)}, an.OrderOpts{Min: 1})
+		r.Guard("C03-P5", u, del, "p1[len(p1)-1].Index < last", an.GuardOpts{Min: 1})
+		r.ArgValues("C03-P5", u, del, 1, []string{"(1 + p1[(len(p1) - 1)].Index)"}, 1)
+		r.Follow("C03-P5", u, an.Call("raft.(*RocksStorage).writeEnts"), []an.M{del}, an.FollowOpts{Assume: "p1[len(p1)-1].Index < last", Min: 1})
+		lastDef := u.Match(an.LocalStore("last"))
+		r.Check("C03-P5", u.Name+": `last` is the storage's last index before this append", "", len(lastDef) == 1 && lastDef[0].Tuple != nil && u.C.Term(lastDef[0].Tuple) == "recv.LastIndex()", "")
 	}
 }
